@@ -41,7 +41,7 @@ def element(item):
     elif s == 'label':
         return elm.LabelNode(name=name, id_loc=item.get('loc', 'N')).at(tuple(item['at']))
     elif s == 'ground':
-        return elm.Ground().at(tuple(item['at']))
+        return (elm.Ground(name=item['name']) if 'name' in item else elm.Ground()).at(tuple(item['at']))
     elif s == 'resistor':
         e = elm.Resistor(R=a['R'], name=name)
     elif s == 'conductance':
@@ -164,14 +164,15 @@ def model(program):
         if it['sym'] == 'label':
             labels[cls[pt(it['at'])]] = it['name']
         if it['sym'] == 'ground':
-            labels[cls[pt(it['at'])]] = '0'
+            labels[cls[pt(it['at'])]] = it.get('name', '0')
             ground = cls[pt(it['at'])]
+            ground_id = it.get('name', '0')
     comps = []
     for it in program['items']:
         if 'p' in it and it['sym'] != 'line':
             comps.append(component_of(it, cls[pt(it['p'])], cls[pt(it['q'])]))
     if ground is not None:
-        comps.append({'kind': 'ground', 'id': '0', 'nodes': [ground], 'args': {}})
+        comps.append({'kind': 'ground', 'id': ground_id, 'nodes': [ground], 'args': {}})
     return {'components': comps}, labels, cls
 
 
